@@ -104,8 +104,8 @@ class YRef:
         self.K = K
         self.cls = ((K.astype(np.int64) @ self.LA.T) % 2).any(axis=1)    # True = all-Y logical
         self.sanity = None
-        if ((K.astype(np.int64) @ self.A.T) % 2).any():
-            self.sanity = 'kernel element with a syndrome'
+        if basis and ((np.array(basis, dtype=np.int64) @ self.A.T) % 2).any():
+            self.sanity = 'kernel basis element with a syndrome'
 
     def syndrome(self, e):
         return (self.A @ np.asarray(e, dtype=np.int64)) % 2
@@ -429,7 +429,7 @@ def cases(ctx):
                              key='C10:ybig:' + v.split(' (')[0][:40])
             continue
         # the same input as a correspondence case where the model is cheap
-        if model_cheap(size, quick) and n_model.get(size, 0) < (6 if quick else 20):
+        if model_cheap(size, quick) and n_model.get(size, 0) < (6 if quick else 10):
             n_model[size] = n_model.get(size, 0) + 1
             a, _D = c10.numerators(dist)
             want = bits(r['out'])
